@@ -525,8 +525,19 @@ def _primitive_params(run, ix):
     cp = P.methods.get("copy")
     if cp is None:
         raise AnalysisError("anchor vanished: Primitive.copy")
-    txt = ast.unparse(cp.node)
-    fills_defaults = "for key in self.primitive._defaults" in txt and "if key not in kwargs" in txt
+    # the dict splatted into the constructor receives, for every default key it does not already hold, the live parameter
+    # (comprehension or loop, whatever the loop variable is called: sa/accum.py)
+    from ..accum import contributions
+    splat = {ast.unparse(k.value) for c in ast.walk(cp.node) if isinstance(c, ast.Call) for k in c.keywords if k.arg is None}
+    fills_defaults = False
+    for c in contributions(cp.node):
+        if c.iter not in ("self.primitive._defaults", "self.primitive._defaults.keys()", "self.primitive._defaults.items()"):
+            continue
+        if c.how == "setitem" and c.acc in splat and c.key == "_1" and ("getattr(self.primitive, _1)" in c.elt or "self.primitive._data[_1]" in c.elt) \
+                and c.filters <= {(f"_1 in {c.acc}", False)}:
+            fills_defaults = True
+        if c.how == "DictComp" and c.key == "_1" and "getattr(self.primitive, _1)" in c.elt and not c.filters:
+            fills_defaults = True
     n = 0
     for sub in ix.all_subclasses(P):
         init = sub.methods.get("__init__")
